@@ -555,6 +555,140 @@ func c04RaceScenarios() []c04Race {
 	return out
 }
 
+
+// =============================================================================================
+// Part (c): waiting for the serialize lock takes time
+//
+// In parts (a) and (b) the clock stands still while a request runs.  Here exactly one thing takes
+// time: the n-th acquisition of the volume's serialize lock by the writer (another I/O operation
+// holds it) lasts c04WaitFor.  Everything else is instantaneous, so the writer is acknowledged at
+// the instant t of its last step, and whatever timestamp protects the block must have been taken
+// after the wait: a DELETE at t + TTL - c04WaitFor/2 must leave the block alone.  n ranges over
+// every lock acquisition the request makes (learned from a run without waiting).
+
+const c04WaitFor = 400 * time.Second
+
+type c04WaitLocker struct {
+	mu    vsched.Mutex
+	count int
+	nth   int
+}
+
+func (l *c04WaitLocker) Lock() {
+	l.count++
+	if l.count == l.nth {
+		vsched.Advance(c04WaitFor)
+	}
+	l.mu.Lock()
+}
+func (l *c04WaitLocker) Unlock() { l.mu.Unlock() }
+
+type c04Wait struct {
+	Kind string `json:"kind"` // "lockwait"
+	W    string `json:"w"`    // PUT TOUCH
+	Prev string `json:"prev"` // absent corrupt intact
+	Nth  int    `json:"nth"`  // which lock acquisition waits (0: none)
+}
+
+func (c c04Wait) name() string { return fmt.Sprintf("lockwait:%s prev=%s nth=%d", c.W, c.Prev, c.Nth) }
+
+// c04WaitRun returns the number of lock acquisitions the writer made.
+func c04WaitRun(r *vrep.Report, base string, c c04Wait) int {
+	locks := 0
+	var wCode int
+	var kept, keptLater bool
+	done := false
+	body := func() {
+		done = false
+		vsched.Quiet(true)
+		y := c04NewSys(base, "w", true, true, c04Life)
+		lk := &c04WaitLocker{nth: c.Nth}
+		y.mounts[0].Volume.(*UnixVolume).locker = lk
+		old := vsched.Now().Add(-c04TTL - time.Hour)
+		switch c.Prev {
+		case "intact":
+			y.place(0, c04B, old)
+		case "corrupt":
+			bad := append([]byte(nil), c04B...)
+			bad[3] ^= 0x20
+			y.place(0, bad, old)
+		}
+		var w c04Resp
+		if c.W == "PUT" {
+			w = y.do("PUT", "/"+c04H, c04B)
+		} else {
+			w = y.do("TOUCH", "/"+c04H, nil)
+		}
+		wCode = w.code
+		locks = lk.count
+		lk.nth = 0 // nothing waits from here on
+		vsched.Advance(c04TTL - c04WaitFor/2)
+		y.do("DELETE", "/"+c04H, nil)
+		_, kept = y.observe()[0].block()
+		vsched.Advance(c04WaitFor)
+		y.do("DELETE", "/"+c04H, nil)
+		_, keptLater = y.observe()[0].block()
+		y.shutdown()
+		done = true
+	}
+	opts := vsched.Options{Name: c.name(), Bound: 0, Report: r, Params: c, MaxPoints: 6000, NoShard: true}
+	vsched.Explore(opts, body, func(x *vsched.Result) {
+		r.Eval(1)
+		r.Traces++
+		r.States++
+		r.Transitions += int64(len(x.Points))
+		if x.Horizon || x.Panic != "" || x.Deadlock || !done {
+			return
+		}
+		out := fmt.Sprintf("lockwait:%s=%d", c.W, wCode)
+		if kept {
+			out += "/kept-until-TTL"
+		} else {
+			out += "/gone-before-TTL"
+		}
+		if keptLater {
+			out += "/kept-after-TTL"
+		} else {
+			out += "/gone-after-TTL"
+		}
+		r.Outcome(out)
+		if c.Nth > 0 {
+			r.Distinct(c.name() + "|" + out)
+		}
+		if wCode == 200 && !kept {
+			r.Violation("lockwait:acknowledged-"+c.W+"-removed-before-TTL:prev="+c.Prev,
+				fmt.Sprintf("%s: the writer's acquisition #%d of the serialize lock took %v (nothing else takes time); %s was answered 200 at t; a DELETE at t + TTL - %v removed the block (TTL %v)",
+					c.name(), c.Nth, c04WaitFor, c.W, c04WaitFor/2, c04TTL), vsched.ReplayInfo(opts, x))
+		}
+	})
+	return locks
+}
+
+func c04WaitAll(r *vrep.Report, base string, idx *int64, filter string) {
+	for _, w := range []string{"PUT", "TOUCH"} {
+		for _, prev := range []string{"absent", "corrupt", "intact"} {
+			if w == "TOUCH" && prev == "absent" {
+				continue
+			}
+			probe := c04Wait{Kind: "lockwait", W: w, Prev: prev}
+			if !strings.Contains(probe.name(), filter) {
+				continue
+			}
+			n := c04WaitRun(vrep.New("C04", "probe"), base, probe)
+			for nth := 0; nth <= n; nth++ {
+				*idx++
+				if !vrep.Mine(*idx) {
+					continue
+				}
+				c := probe
+				c.Nth = nth
+				c04WaitRun(r, base, c)
+				r.AddExtra("lockwait_executions", 1)
+			}
+		}
+	}
+}
+
 // =============================================================================================
 // Part (a): histories
 
@@ -1013,14 +1147,26 @@ func TestVerifC04(t *testing.T) {
 			xstate.Search(c04HistModel(r, base, cfg, oc))
 			return
 		}
+		var cw c04Wait
+		if json.Unmarshal(rp.Params, &cw) == nil && cw.Kind == "lockwait" {
+			c04WaitRun(r, base, cw)
+			return
+		}
 		var c c04Race
 		c04Must(json.Unmarshal(rp.Params, &c))
 		c04RaceRun(r, base, c)
 		return
 	}
 
-	// part (b): interleavings (half of the time budget at most)
+	// part (c): lock waits (cheap, first)
 	var idx int64
+	if only == "" || only == "lockwait" {
+		c04WaitAll(r, base, &idx, filter)
+	}
+	if only == "lockwait" {
+		return
+	}
+	// part (b): interleavings (half of the time budget at most)
 	raceCapped := false
 	if only != "hist" {
 		for _, sc := range c04RaceScenarios() {
